@@ -17,7 +17,7 @@ use crate::refmap::MapSet;
 use crate::refremap::{all_diffs, direct_supers, normalise_path, rename, tolerate, Pos, Rho};
 use crate::rng::{Digest, Rng};
 use crate::simio::*;
-use crate::simjar::{build_jar, open_entries, EntryData, SimJar};
+use crate::simjar::{build_jar, open_entries, EntryData, LazyJar, LazyPlan, SimJar};
 use dukebox::storage::Jar;
 use refclass::gen::feat;
 use refclass::{JStr, Sem};
@@ -150,6 +150,10 @@ pub struct Plan {
     pub sink: Option<IoPlan>,
     #[serde(default)]
     pub sink_route: u8,
+    /// Some: the same entries are also offered as a `LazyJar` (entry-level seam: an entry operation fails once, or
+    /// from some point on)
+    #[serde(default)]
+    pub lazy: Option<LazyPlan>,
 }
 
 fn to_entries(p: &Plan) -> Vec<(String, EntryData)> {
@@ -750,7 +754,7 @@ impl Engine for C07 {
             entries.extend(others);
             w.shuffle(&mut entries);
         }
-        let mut p = Plan { entries, deflate: w.chance(60), map: wl.map, map_order: if w.chance(30) { 0 } else { w.next() | 1 }, io: IoPlan::plain(), provider_healthy: false, sink: None, sink_route: 0 };
+        let mut p = Plan { entries, deflate: w.chance(60), map: wl.map, map_order: if w.chance(30) { 0 } else { w.next() | 1 }, io: IoPlan::plain(), provider_healthy: false, sink: None, sink_route: 0, lazy: None };
         // ---- schedule and faults
         let mode = s.below(10);
         if mode >= 3 && (mode <= 5 || s.chance(50)) {
@@ -810,6 +814,18 @@ impl Engine for C07 {
                 }
                 p.sink = Some(io);
                 p.sink_route = route;
+            }
+        }
+        // ---- the entry-level seam
+        {
+            let mut z = rng.split("lazy-jar");
+            if z.chance(20) {
+                // the provider walks the entries once, remap once: about 3 operations per entry and walk
+                let span = 7 * p.entries.len() as u64 + 6;
+                let mut fail_at: Vec<u32> = (0..z.below(3)).map(|_| z.below(span) as u32).collect();
+                fail_at.sort();
+                fail_at.dedup();
+                p.lazy = Some(LazyPlan { fail_at, sticky: z.chance(30), io: if z.chance(50) { IoPlan::gen_legal(&mut z) } else { IoPlan::plain() } });
             }
         }
         // debugging aid: VERIF_C07_DUMP_RUN=<run index> writes that run's plan as a replay file
@@ -982,6 +998,58 @@ impl Engine for C07 {
                 }
             }
         }
+        // ---------------- the entry-level seam: the same entries behind a LazyJar
+        if let Some(lp) = &p.lazy {
+            let q: quill::tree::mappings::Mappings<2, Ns> = to_quill::<2>(&p.map, if p.map_order == 0 { None } else { Some(Rng::new(p.map_order)) }.as_mut()).expect("mapping model admissible for quill");
+            let lj = std::sync::Arc::new(LazyJar::new(entries.clone(), lp));
+            struct Shared(std::sync::Arc<LazyJar>);
+            impl Jar for Shared {
+                type Opened<'a> = <LazyJar as Jar>::Opened<'a> where Self: 'a;
+                fn open(&self) -> anyhow::Result<Self::Opened<'_>> {
+                    self.0.open()
+                }
+                fn put_to_file<'a>(&'a self, s: &'a std::path::Path) -> anyhow::Result<&'a std::path::Path> {
+                    self.0.put_to_file(s)
+                }
+            }
+            let _g = quiet::on();
+            let res = no_panic(|| -> anyhow::Result<Vec<(String, EntryData)>> {
+                let prov = lj.get_super_classes_provider()?;
+                let remapper = q.remapper_b_first_to_second(&prov)?;
+                let parsed = dukebox::remap::remap(Shared(lj.clone()), remapper)?;
+                let mem = parsed.to_mem()?;
+                open_entries(&mem.data)
+            });
+            drop(_g);
+            lj.report(st);
+            let failed = lj.failed() > 0;
+            let tier = if failed { "T2" } else { "T1" };
+            st.tier(if failed { "T2" } else { "T1" });
+            obs.u64(0x1a2);
+            match res {
+                Err(pm) => push_dedup(&mut out, &mut seen, Violation::new(tier, "panic", format!("remap:{}", panic_path(&pm)), pm)),
+                Ok(Err(e)) => {
+                    obs.u64(2);
+                    if failed {
+                        st.probe("lazy.err_after_failed_entry_operation");
+                    } else {
+                        push_dedup(&mut out, &mut seen, Violation::new("T1", "schedule-dependence", "lazy.result", format!("fails on a jar that hands out its entries one by one although no entry operation failed: {e:#}")));
+                    }
+                }
+                Ok(Ok(v)) => {
+                    obs.u64(1);
+                    if failed {
+                        st.probe("lazy.ok_after_failed_entry_operation");
+                    }
+                    // the data is intact whatever failed in between: an answer must be THE answer
+                    if v != t0_entries {
+                        let at = v.iter().zip(&t0_entries).position(|(a, b)| a != b).unwrap_or(v.len().min(t0_entries.len()));
+                        let (class, what) = if failed { ("reader-ok-with-wrong-data", "Ok although an entry operation failed, and") } else { ("schedule-dependence", "no entry operation failed, but") };
+                        push_dedup(&mut out, &mut seen, Violation::new(tier, class, "lazy.entries", format!("{what} the output differs from the output for the zip-backed jar at entry {at} ({} vs {} entries)", v.len(), t0_entries.len())));
+                    }
+                }
+            }
+        }
         // ---------------- sink phase: the remapped jar written out through a simulated sink / onto the simulated disk
         if let (Some(sink), true) = (&p.sink, p.io.faults.is_empty()) {
             for v in sink_phase(&jar, &p.map, p.map_order, sink, p.sink_route, &t0_entries, &mut obs, st) {
@@ -998,6 +1066,25 @@ impl Engine for C07 {
             let mut q = p.clone();
             q.io = io;
             c.push(q);
+        }
+        if let Some(lp) = &p.lazy {
+            let mut q = p.clone();
+            q.lazy = None;
+            c.push(q);
+            for i in 0..lp.fail_at.len() {
+                let mut q = p.clone();
+                if let Some(l) = q.lazy.as_mut() {
+                    l.fail_at.remove(i);
+                }
+                c.push(q);
+            }
+            if !lp.io.is_plain() {
+                let mut q = p.clone();
+                if let Some(l) = q.lazy.as_mut() {
+                    l.io = IoPlan::plain();
+                }
+                c.push(q);
+            }
         }
         if let Some(sink) = &p.sink {
             let mut q = p.clone();
@@ -1080,7 +1167,7 @@ impl Engine for C07 {
 
     fn size(&self, p: &Plan) -> (u64, u64) {
         let bytes: usize = p.entries.iter().map(|e| e.data.len()).sum();
-        ((p.entries.len() + p.map.count()) as u64 + bytes as u64 / 64 + p.sink.is_some() as u64, (p.io.faults.len() + p.sink.as_ref().map_or(0, |s| s.faults.len())) as u64)
+        ((p.entries.len() + p.map.count()) as u64 + bytes as u64 / 64 + p.sink.is_some() as u64, (p.io.faults.len() + p.sink.as_ref().map_or(0, |s| s.faults.len()) + p.lazy.as_ref().map_or(0, |l| l.fail_at.len())) as u64)
     }
     fn rule(&self) -> String {
         "one run = one jar (1-8 classes: refclass-generated classes re-pointed at each other / at classes outside the jar, plus javac corpus classes; non-class entries; directories; stored or deflated) x one two-namespace mapping set over those classes (partial, package moves, inner classes, members declared in / inherited from super types inside and outside the jar), turned into the REAL quill remapper_b over the REAL JarSuperProv x one medium schedule (chunk ceiling, short %, EINTR %) x 0-2 faults (EIO at call n / at offset, torn jar, flipped byte aimed at data / central directory / end record, seek failure; on both readers of the jar or on remap only); distinct by (workload shape digest, I/O event-log digest); a run is non-trivial when a short transfer, EINTR or fault actually fired".into()
@@ -1132,6 +1219,7 @@ impl Engine for C07 {
             "t2.ok_on_altered_bytes",
             "io.eintr",
             "io.short_transfers",
+            "lazy.err_after_failed_entry_operation",
             "sink.write",
             "sink.err_after_fault",
             "sink.put_to_file.ok",
